@@ -479,15 +479,6 @@ func (w *Wallet) syncWithChain(birthdayStamp *waddrmgr.BlockStamp) error {
 		}
 	}
 
-	// If the wallet requested an on-chain recovery of its funds, we'll do
-	// so now.
-	if w.recoveryWindow > 0 {
-		if err := w.recovery(chainClient, birthdayStamp); err != nil {
-			return fmt.Errorf("unable to perform wallet recovery: "+
-				"%w", err)
-		}
-	}
-
 	// Compare previously-seen blocks against the current chain. If any of
 	// these blocks no longer exist, rollback all of the missing blocks
 	// before catching up with the rescan.
@@ -554,6 +545,18 @@ func (w *Wallet) syncWithChain(birthdayStamp *waddrmgr.BlockStamp) error {
 	})
 	if err != nil {
 		return err
+	}
+
+	// If the wallet requested an on-chain recovery of its funds, we'll do
+	// so now. This must happen after the rollback above: the recovery
+	// continues from the synced-to block, and if that block has been
+	// reorged out while the wallet was down it would otherwise extend the
+	// new chain on top of the stale blocks.
+	if w.recoveryWindow > 0 {
+		if err := w.recovery(chainClient, birthdayStamp); err != nil {
+			return fmt.Errorf("unable to perform wallet recovery: "+
+				"%w", err)
+		}
 	}
 
 	// Request notifications for connected and disconnected blocks.
